@@ -46,6 +46,36 @@ def cat(*xs):
     return z3.Concat(*xs)
 
 
+def accumulator_shape(fi):
+    """How the read-exactly helper accumulates what it has read, read off its AST, so that the loop invariant follows a refactoring of the
+    accumulator instead of naming one particular local.  The invariant is still CHECKED (on entry, preserved), never assumed: a wrong guess is a failed
+    proof, not an unsound one.  Returns (expression text for the bytes read so far, {local: kind} to declare, [integer locals counting them])"""
+    import ast
+    rets = [n for n in ast.walk(fi.node) if isinstance(n, ast.Return) and n.value is not None]
+    loops = [n for n in ast.walk(fi.node) if isinstance(n, ast.While)]
+    if len(rets) != 1 or len(loops) != 1:
+        return None
+    v = rets[0].value
+    acc, kinds = None, {}
+    if isinstance(v, ast.Name):
+        acc = v.id
+    elif isinstance(v, ast.Call) and isinstance(v.func, ast.Name) and v.func.id == 'bytes' and len(v.args) == 1 and isinstance(v.args[0], ast.Name):
+        acc = v.args[0].id
+    elif isinstance(v, ast.Call) and isinstance(v.func, ast.Attribute) and v.func.attr == 'join' and isinstance(v.func.value, ast.Constant) \
+            and v.func.value.value == b'' and len(v.args) == 1 and isinstance(v.args[0], ast.Name):
+        acc = f'joined({v.args[0].id})'
+        kinds[v.args[0].id] = 'symlist'
+    if acc is None:
+        return None
+    counters = []
+    for n in ast.walk(loops[0]):
+        # n += len(chunk): an integer local that counts the bytes read
+        if isinstance(n, ast.AugAssign) and isinstance(n.op, ast.Add) and isinstance(n.target, ast.Name) and isinstance(n.value, ast.Call) \
+                and isinstance(n.value.func, ast.Name) and n.value.func.id == 'len':
+            counters.append(n.target.id)
+    return acc, kinds, counters
+
+
 def setup_complete(ex, env):
     """the unread stream starts with one complete frame be32(n) ++ body, followed by anything"""
     ac = ex.abs_classes['Socket']
@@ -140,6 +170,18 @@ def build(ex):
     if HELPER in ex.repo.funcs:
         # modular shape: recv_msg reads header and body through a read-exactly helper.  The helper gets its own
         # contract (verified against its body, lemma L0) and recv_msg is checked against that contract, not the body.
+        shape = accumulator_shape(ex.repo.func(HELPER))
+        ACC, KINDS, COUNTERS = shape if shape is not None else ('data', {}, [])
+        from pyvc.interp_data import bjoin_f
+
+        def joined(se, l):
+            h = se.ex.heap[l.addr] if isinstance(l, VRef) else None
+            if h is None or not hasattr(h, 'seq'):
+                from pyvc.core import Undecided
+                raise Undecided('joined() of something that is not a symbolic list')
+            se.ex.assume(bjoin_f(z3.Empty(smt.SeqVal)) == z3.Empty(B))
+            return VBytes(bjoin_f(h.seq))
+        ex.spec_functions['joined'] = joined
         helper = Contract(
             HELPER, name='C10.L0 _recv_exactly returns exactly `size` bytes of the stream or raises at end of stream',
             lid='L0',
@@ -154,13 +196,14 @@ def build(ex):
                     'ConnectionResetError': 'sock.err'},
             raises_only=['ConnectionClosedError', 'ConnectionResetError'],
             modifies=['abs:Socket.consumed', 'abs:Socket.unread', 'abs:Socket.reads', 'abs:Socket.err'],
-            loops={0: Loop(invariant=['len(data) <= size',
-                                      'sock.consumed == old(sock.consumed) + data',
-                                      'data + sock.unread == old(sock.unread)',
-                                      'not sock.err'],
-                           variant='size - len(data)',
-                           modifies=['abs:Socket.consumed', 'abs:Socket.unread', 'abs:Socket.reads', 'abs:Socket.err'])},
-            options={'sock_errors': ['ConnectionResetError']},
+            loops={0: Loop(invariant=[f'len({ACC}) <= size',
+                                      f'sock.consumed == old(sock.consumed) + {ACC}',
+                                      f'{ACC} + sock.unread == old(sock.unread)',
+                                      'not sock.err'] + [f'{n} == len({ACC})' for n in COUNTERS],
+                           variant=f'size - len({ACC})',
+                           locals=dict(KINDS),
+                           modifies=['abs:Socket.consumed', 'abs:Socket.unread', 'abs:Socket.reads', 'abs:Socket.err'] + sorted(KINDS))},
+            options={'sock_errors': ['ConnectionResetError'], '__local_kinds__': {(HELPER, n): k for n, k in KINDS.items()}},
             setup=lambda ex_, env: ex_.abs_classes['Socket'].set(ex_, env['sock'], 'err', z3.BoolVal(False)))
         ex.contracts[HELPER] = helper
         ex.use_contract.add(HELPER)
